@@ -7,28 +7,28 @@ VERIF = os.path.dirname(os.path.dirname(os.path.abspath(__file__)))
 # property -> (level, engine, technique, level text, level note, design ref)
 P = {
  "C01": ("model_checking", "E1-bfs", "explicit-state BFS to a fixpoint over the accessor-derivation graph of the real API, interval reference model, guard pages and canaries",
-         "Closure (empty frontier) of every derivation the API offers from roots of every small size and base alignment, all arguments 0..=L+1 plus extreme and pointer-overflowing values; each transition is executed on the real crate and compared with an interval model; each new accessor is exercised (fill/read-back) inside an arena with canaries and PROT_NONE guard pages.",
+         "Closure (empty frontier) of every derivation the API offers from roots of every small size and base alignment, all arguments 0..=L+1 plus extreme and pointer-overflowing values; each transition is executed on the real crate and compared with an interval model; each new accessor is exercised (fill/read-back) inside an arena with canaries and PROT_NONE guard pages; element accessors of arrays (ref_at, load, store) are probed with every index incl. out of range.",
          "Container sizes <= 33 bytes (mmap regions: 1, 5, 4096, 4097); state canonicalisation = (kind, type, offset, length, bitmap offset), sound because the accessor structs are Copy records of exactly these fields.", "2/C01"),
  "C02": ("exploration", "exhaustive-inputs", "exhaustive enumeration of all region layouts over a small cell universe x all queries, against an interval-set model; mmap collection and a trait-default mock implementation",
-         "Every set of disjoint regions over U cells (adjacent vs merged distinguished) at several bases including the top of the address space, every query method at every address/length of the universe plus extremes; huge layouts probed at boundaries through raw regions.",
+         "Every set of disjoint regions over U cells (adjacent vs merged distinguished) at several bases including the top of the address space, every query method at every address/length of the universe plus extremes; huge layouts probed at boundaries through raw regions; the trait-default mock keeps its regions in an order of its own (as given, reversed, rotated).",
          "Small universe (6..8 cells) for exhaustive part; large layouts only at boundary addresses. len=0 ranges recorded, not judged.", "2/C02"),
  "C03": ("model_checking", "E1-bfs", "explicit-state BFS over operation histories on real guest memory with a sparse byte-map reference model; full-memory diff after every transition",
-         "All layouts over a small universe x all (op, address, length) at depth 1 and all depth-2/3 histories over a reduced alphabet, on anonymous, file-backed and Xen-UNIX regions and a trait-default mock; after each step every byte of every region is compared with the model.",
+         "All layouts over a small universe x all (op, address, length) at depth 1 and all depth-2/3 histories over a reduced alphabet, on anonymous, file-backed and Xen-UNIX regions and a trait-default mock (unordered storage), short streams that also report Interrupted; after each step every byte of every region is compared with the model.",
          "Universe of 6..7 one-byte cells; object types up to 16 bytes; ample in-memory streams (short streams belong to C14).", "2/C03"),
  "C04": ("model_checking", "E1-bfs", "explicit-state exploration of operation histories on one container against a Vec<u8> model, depth-1 full alphabet and depth-2 route pairs",
-         "All accessors x all (offset, length, type) on containers of 0..24 bytes at every misalignment, every (src mod 8, dst mod 8, len<=9) class of the small-copy routine, depth-2 product of write route x read route, depth-3 on a reduced alphabet; container (frame included) compared byte for byte after every operation.",
+         "All accessors x all (offset, length, type) on containers of 0..24 bytes at every misalignment, every (src mod 8, dst mod 8, len<=9) class of the small-copy routine, depth-2 product of write route x read route, depth-3 on a reduced alphabet and write / nearly identical rewrite / read histories; container (frame included) compared byte for byte after every operation.",
          "Containers <= 24 bytes plus MmapRegion of 24/4099 bytes; stream forms starting exactly at the end accept Ok(0) or Err.", "2/C04"),
  "C05": ("model_checking", "E1-bfs", "explicit-state exploration of derivation chains x write operations x page sizes x bitmap flavours x reset histories with a diff-driven dirtiness oracle",
          "Every write path through every derivation chain of up to 2..3 links, page sizes from 1 byte to larger than the container, plain/Arc/optional/sliced bitmaps, histories interleaved with resets; oracle: every byte that changed is dirty in the owning region's bitmap at its own offset; all interleavings of one tracked write (20 paths, incl. reads from a real descriptor with read(2) as a scheduling point) with a fetch-and-clear consumer.",
          "Containers of 16..24 bytes; chain depth <= 3; raw-pointer writes exempt as documented.", "2/C05"),
  "C06": ("model_checking", "E3-sched + trace enumeration", "trace enumeration of the primitive accesses of every (len, src mod 8, dst mod 8) class per entry point, and controlled-scheduler enumeration of all writer/reader interleavings at primitive-access granularity",
-         "Hook H1 records width and address of every primitive volatile access issued by the byte-copy helper; for all 576 classes x entry points the access sequence is checked (single access of the full width when aligned); the same rule with the guest bytes or the local buffer at host addresses with exactly 4..46 trailing zero bits; all interleavings of a flipping writer and a reader are enumerated and the reader must see old or new. Ordering clause: src/atomic_integer.rs compiled with loom atomics, message-passing litmus for six integer types x four ordering pairs (acquire/release strength).",
+         "Hook H1 records width and address of every primitive volatile access issued by the byte-copy helper; for all 576 classes x entry points the access sequence is checked (single access of the full width when aligned); the same rule with the guest bytes or the local buffer at host addresses with exactly 4..46 trailing zero bits and at every aligned position of a 4 KiB page; all interleavings of a flipping writer and a reader are enumerated and the reader must see old or new. Ordering clause: src/atomic_integer.rs compiled with loom atomics, message-passing litmus for six integer types x four ordering pairs (acquire/release strength).",
          "One naturally aligned volatile access of <= 8 bytes is a single machine access (LLVM volatile semantics + x86-64 single-copy atomicity); SC interleavings; a SeqCst access carried out as acquire/release is not detectable by the engines present (DESIGN.md section 5).", "2/C06"),
  "C07": ("exploration", "exhaustive-inputs", "exhaustive enumeration of an extreme-value alphabet over every public entry point, two build profiles, every call under catch_unwind + fault handler + hang watchdog",
          "Every access/query entry point of slices, regions, guest memory, bitmaps and stream helpers x boundary and extreme addresses/lengths/counts x layouts at the bottom and top of the address space; each call under catch_unwind plus a SIGABRT/SIGSEGV/SIGFPE handler that attributes the fault to the call, with a watchdog for calls that do not return, in the overflow-checked and in the release profile.",
          "Alphabet of boundary/extreme values, not all 2^64; program-controlled arguments (types, enlarge amounts, non-power-of-two alignments, array indices) excluded as documented.", "2/C07"),
  "C08": ("model_checking", "E3-sched", "stateless DFS over all interleavings of real threads under a controlled scheduler (hooked atomics, multinomial self-check), plus loom exploration of the same bitmap code under the C11 memory model",
-         "All interleavings (unbounded for the small harnesses, preemption-bounded where stated) of 2..3 real threads marking, resetting, harvesting and cloning one AtomicBitmap whose pages share a word or straddle two words (page sizes 1..4096 bytes, tracked ranges ending in a partial page); every schedule is an execution of the real code; per-page conservation oracle plus a real-time-order oracle from recorded call/return events (a mark must be visible at the end or accounted for by a harvest/reset that returned after the mark was called). A second engine, loom, enumerates every C11-consistent execution (interleavings and weak-memory reorderings) of smaller harnesses on the bitmap source compiled from the tree with loom's atomics.",
+         "All interleavings (unbounded for the small harnesses, preemption-bounded where stated) of 2..3 real threads marking, resetting, harvesting and cloning one AtomicBitmap whose pages share a word or straddle two words (page sizes 1..4096 bytes, tracked ranges ending in a partial page, marks and resets running past the end); every schedule is an execution of the real code; per-page conservation oracle plus a real-time-order oracle from recorded call/return events (a mark must be visible at the end or accounted for by a harvest/reset that returned after the mark was called). A second engine, loom, enumerates every C11-consistent execution (interleavings and weak-memory reorderings) of smaller harnesses on the bitmap source compiled from the tree with loom's atomics.",
          "E3: SC interleavings of whole atomic operations, interception by type through hook H2. loom: its model of the C11 memory model; the bitmap source is copied from the tree with only the atomic import switched.", "2/C08"),
  "C09": ("model_checking", "E1-bfs", "explicit-state BFS to a fixpoint over all public bitmap operations on tiny bitmaps, BTreeSet page-set model; exhaustive ranges on word-boundary configurations",
          "Closure over all operation sequences on bitmaps of <= 6 pages (state = complete concrete bitmap state), plus every (start,len) from boundary alphabets on 63..129-page and non-power-of-two configurations; model comparison of every observable after every step.",
@@ -37,7 +37,7 @@ P = {
          "From every reachable map: every insert interval of the universe, every region handle already held by the map or an ancestor, every (base,size) removal, every ordered build list of <= 3 intervals and lists with a repeated handle; documented error classes; parent and all ancestor maps re-read after every transition.",
          "Universe of 6 (quick) or 11 (thorough) cells at three bases.", "2/C10"),
  "C11": ("model_checking", "E3-sched + E1-bfs", "controlled-scheduler enumeration of updater/reader interleavings at ArcSwap/Mutex-operation granularity, plus BFS over sequential handle histories",
-         "All interleavings within a preemption bound (stated) of updaters (lock, derive, replace) and readers (snapshot, read, clone, convert, drop); snapshot == exactly one published map (maps identified by start and region instance; updates insert, remove - down to the empty map - or swap a region for a fresh one of the same range), no lost replacement, monotonic visibility, memory still mapped; sequential histories to depth 6.",
+         "All interleavings within a preemption bound (stated) of updaters (lock, derive, replace) and readers (snapshot, read, clone, convert, drop); snapshot == exactly one published map (maps identified by start and region instance; updates insert, remove - down to the empty map - or swap a region for a fresh one of the same range; an updater may panic while holding the update lock), no lost replacement, monotonic visibility, memory still mapped; sequential histories to depth 6.",
          "arc_swap internals execute for real but ArcSwap::load/store are treated as atomic steps; SC.", "2/C11"),
  "C12": ("model_checking", "E1-bfs + interposed mmap log + compile-fail grid", "explicit-state BFS over create/share/drop histories with link-time interposed mmap/munmap log; compile-fail grid for lifetimes",
          "All histories to depth 6 (quick) or 8 (thorough) over 3 region kinds and all drop orders; mapped iff an owner is alive, munmap exactly once with the mapped (addr,len), external mappings never unmapped; the mapping log replayed as an address-space model (no page mapped for a region may outlive its owners); size sweep 1 byte .. 32 MiB+1 (thorough 1 GiB+1) x drop orders of five owners; creations that fail half-way under one mmap / lseek fault leave nothing mapped; builder sweep over protections x flag words x sizes x backing (mlock/madvise/mprotect interposed and failed one at a time); std and Xen builds. A generated grid of escaping-accessor programs must be rejected by rustc while each non-escaping twin compiles.",
@@ -49,7 +49,7 @@ P = {
          "Every script of per-call behaviours up to the length bound for three targets (slice, region, guest memory spanning two regions and a hole), all four transfer forms plus the trait-level exact forms; transfer model: EINTR retried, errors surface, no byte lost or duplicated.",
          "Scripts up to 5 calls, EINTR runs up to 3; counts {0,1,5,8,9,13}.", "2/C14"),
  "C15": ("fault_enumeration", "exhaustive-inputs + fault injection", "exhaustive enumeration of construction requests (sizes x file lengths x offsets x flag words incl. all Xen flag bytes) with injected mmap/ioctl failures, interposed mapping log",
-         "Acceptance predicate from the statement; attribute echo on success; nothing left mapped on failure (interposed log); sequences of file lengths through one FileOffset lineage; every length query answered with EIO / 0 / 2^40; shared file coherence byte by byte; Xen: all 256 low flag bytes and every high bit, emulated devices, injected failures.",
+         "Acceptance predicate from the statement; attribute echo on success; nothing left mapped on failure (interposed log); sequences of file lengths through one FileOffset lineage; every length query answered with EIO / 0 / 2^40; shared file coherence byte by byte; file offsets around 2^31, 2^32, 2^33 in a sparse file; Xen: all 256 low flag bytes and every high bit, emulated devices, injected failures.",
          "Emulated gntdev/privcmd; safe requests the OS refuses may fail.", "2/C15"),
  "C16": ("model_checking", "E1-bfs", "same exploration as C05 with the precision oracle (dirty set after == before U pages of written bytes)",
          "Same cases as C05; read-type operations, derivations, queries, rejected requests mark nothing; successful writes mark exactly the overlapping pages; reset / reset-range / fetch-and-clear clear exactly the named pages and report exactly what was dirty (also on bitmaps of two and three words); the failed-descriptor-read exception is encoded.",
@@ -64,7 +64,7 @@ P = {
          "impl_address_ops! from the current tree instantiated at width 8 (all 2^16 pairs per operation) and 16 (thorough, all 2^32); GuestAddress/MemoryRegionAddress at width 64 on the +-4 grid around 0, 2^8.. 2^64 squared and all 64 alignments.",
          "Width 64 is covered by a boundary grid, not exhaustively; genericity of the macro over the width.", "2/C19"),
  "C20": ("exploration", "exhaustive-inputs", "exhaustive enumeration of all 16-bit values (and all 32-bit in thorough), structured byte alphabet for 64-bit, against to_le_bytes/to_be_bytes",
-         "Round trip, in-memory bytes, equality both ways, size/alignment and bytes found in guest memory after write_obj for all eight wrappers.",
+         "Round trip, in-memory bytes, equality both ways, size/alignment and bytes found in guest memory after write_obj for all eight wrappers; placement at every offset, objects across regions, records of wrappers, typed copies of 1..257 wrappers at every address mod 8.",
          "64-bit coverage is a bounded alphabet (6^8 byte patterns + rotations + single bits).", "2/C20"),
 }
 
